@@ -25,12 +25,18 @@ type worldOpts struct {
 	forceRolling  bool
 	orphanRevs    bool
 	eventMode     bool
+	untyped       bool // also draw sets whose updateStrategy.type is omitted (the CRD does not default it)
 }
 
 func (w World) Summary() interface{} { return summarizeWorld(w) }
 
 func genWorld(rt *rapid.T, o worldOpts) World {
-	w := World{Spec: genSpec(rt, o.maxR), CurRev: -1}
+	// thorough tier: a quarter of the worlds are drawn from wider ranges
+	big := thorough() && rapid.IntRange(0, 3).Draw(rt, "big") == 0
+	w := World{Spec: genSpecSized(rt, o.maxR, big), CurRev: -1, Big: big}
+	if big {
+		o.maxOps += o.maxOps / 2
+	}
 	if o.forceOrdered {
 		w.Spec.Parallel = false
 	}
@@ -40,8 +46,13 @@ func genWorld(rt *rapid.T, o worldOpts) World {
 	if o.forceRolling && w.Spec.Strategy == 2 {
 		w.Spec.Strategy = 0
 	}
+	if o.untyped && rapid.IntRange(0, 7).Draw(rt, "untypedStrategy") == 0 {
+		// "Default is RollingUpdate" (types.go): type omitted, with a rollingUpdate{partition} block or without one
+		w.Spec.Strategy = rapid.SampledFrom([]int{4, 4, 5}).Draw(rt, "untypedKind")
+		w.Spec.Partition = int32(rapid.SampledFrom([]int{0, 1, 2, 3, 4}).Draw(rt, "untypedPartition"))
+	}
 	w.Hist = genHist(rt)
-	if o.constructed > 0 && rapid.IntRange(0, 7).Draw(rt, "heldRollout") == 0 {
+	if o.constructed > 0 && !(w.Spec.Strategy >= 4) && rapid.IntRange(0, 7).Draw(rt, "heldRollout") == 0 {
 		// a rollout held by the partition: pods at or above it updated and Ready, pods below it at the previous
 		// (current) revision, one of them possibly Failed / Succeeded / unready
 		w.Spec.Strategy = 0
@@ -67,7 +78,7 @@ func genWorld(rt *rapid.T, o worldOpts) World {
 			w.Pods = append(w.Pods, pp)
 		}
 	} else if rapid.IntRange(0, 9).Draw(rt, "constructed") < o.constructed {
-		w.Pods = genPods(rt, len(w.Hist), o.orphans)
+		w.Pods = genPodsSized(rt, len(w.Hist), o.orphans, big)
 		if len(w.Hist) > 1 && rapid.Bool().Draw(rt, "repointCurrent") {
 			w.CurRev = rapid.IntRange(0, len(w.Hist)-1).Draw(rt, "curRev")
 		}
@@ -144,7 +155,9 @@ func runC03(rep Rep, w World) {
 }
 
 func TestC03(t *testing.T) {
-	checkCases(t, "C03", func(rt *rapid.T) World { return genWorld(rt, histOpts) }, runC03)
+	o := histOpts
+	o.untyped = true
+	checkCases(t, "C03", func(rt *rapid.T) World { return genWorld(rt, o) }, runC03)
 }
 func TestRegressC03(t *testing.T) { regress(t, "C03", runC03) }
 
@@ -252,6 +265,7 @@ var c07Opts = func() worldOpts {
 	w[OpSettle] = 4
 	w[OpEditStrategy] = 1
 	o.weights = w
+	o.untyped = true
 	return o
 }()
 
